@@ -2,11 +2,15 @@
 from __future__ import annotations
 
 import copy
+import os
+import shutil
+import tempfile
 import sys
 import threading
 import time
 from typing import Any, Dict, List, Optional
 
+import yaml
 from hypothesis import strategies as st
 
 from ..core.campaign import run_campaign
@@ -46,16 +50,20 @@ def c15_case(draw, max_jobs: int = 8):
         else:
             payload = M.NONE
         jobs.append({"kind": kind, "payload": payload, "pause_ms": draw(st.sampled_from([0, 0, 0, 1, 5, 30])),
-                     "before_start": draw(st.booleans())})
+                     "before_start": draw(st.booleans()),
+                     # the three documented ways of handing a pipeline to enqueue()
+                     "form": draw(st.sampled_from(["list", "yaml", "list", "pipeline", "list"]))})
     fail_at = draw(st.sampled_from([None, None] + list(range(n))))
     return {"jobs": jobs, "fail_at": fail_at, "workers": draw(st.integers(1, 4)),
             "switch": draw(st.sampled_from([1e-6, 1e-5, 1e-4, 5e-3])),
-            "fail_kind": draw(st.sampled_from(["divide", "divide", "value_empty", "assert_empty", "runtime"])),
+            "fail_kind": draw(st.sampled_from(["divide", "yaml_missing", "value_empty", "cfg_not_nodes", "assert_empty", "yaml_invalid", "runtime", "divide"])),
             "enqueue_stall_ms": draw(st.sampled_from([0, 0, 0, 400]))}
 
 
 def job_config(k: int, job: Dict[str, Any], failing: bool, fail_kind: str = "divide") -> List[Dict[str, Any]]:
     p = PRIMES[k % len(PRIMES)]
+    if failing and fail_kind in ("yaml_missing", "yaml_invalid", "cfg_not_nodes"):
+        failing = False  # the pipeline itself is fine; it is the job that cannot be loaded (see run_batch.enqueue)
     if failing and fail_kind != "divide" and job["kind"] != "collection":
         # the pipeline raises a pre-built exception object; some have an empty message (str(exc) == "")
         first = [{"processor": "FloatValueDataSource", "parameters": {"value": p}}] if job["kind"] == "none" else []
@@ -148,20 +156,45 @@ def run_batch(case: Dict[str, Any]) -> Dict[str, Any]:
     job_ids: List[Optional[str]] = []
     threads: List[threading.Thread] = []
     out: Dict[str, Any] = {}
+    jobdir = tempfile.mkdtemp(prefix="c15-jobs-", dir=".")
     try:
         def enqueue(k: int) -> None:
             job = case["jobs"][k]
             failing = case["fail_at"] == k
-            cfg = job_config(k, job, failing, case.get("fail_kind", "divide"))
+            fk = case.get("fail_kind", "divide")
+            cfg = job_config(k, job, failing, fk)
             data = observe.build_data(job["payload"])
             ctx = {"tag": k}
+            unloadable = failing and fk in ("yaml_missing", "yaml_invalid", "cfg_not_nodes")
+            handed: Any = cfg
+            form = job.get("form", "list")
+            if unloadable:
+                # a job the worker cannot turn into a pipeline: its future must still complete (exceptionally)
+                if fk == "cfg_not_nodes":
+                    handed = ["not-a-node-mapping"]
+                else:
+                    handed = os.path.join(jobdir, f"job{k}_{fk}.yaml")
+                    if fk == "yaml_invalid":
+                        with open(handed, "w") as fh:
+                            fh.write("pipeline:\n  nodes: [unclosed\n")
+                expected.append({"ok": False, "exc": "unloadable"})
+                fut = master.enqueue(handed, data=data, context=ContextType(dict(ctx)), return_future=True)
+                job_ids.append(k)
+                futures.append(fut)
+                return
+            if form == "yaml":
+                handed = os.path.join(jobdir, f"job{k}.yaml")
+                with open(handed, "w") as fh:
+                    yaml.safe_dump({"pipeline": {"nodes": copy.deepcopy(cfg)}}, fh)
+            elif form == "pipeline":
+                handed = Pipeline(copy.deepcopy(cfg))
             # the direct run (same configuration, same payload) is the reference
             try:
                 ref = Pipeline(copy.deepcopy(cfg)).process(Payload(observe.build_data(job["payload"]), ContextType(dict(ctx))))
                 expected.append({"ok": True, "data": observe.norm_data(ref.data), "ctx": observe.norm_ctx(ref.context)})
             except Exception as exc:  # noqa: BLE001
                 expected.append({"ok": False, "exc": type(exc).__name__})
-            fut = master.enqueue(cfg, data=data, context=ContextType(dict(ctx)), return_future=True)
+            fut = master.enqueue(handed, data=data, context=ContextType(dict(ctx)), return_future=True)
             job_ids.append(k)  # resolved to the job id after the batch (the cfg publication carries tag -> id)
             futures.append(fut)
 
@@ -235,6 +268,7 @@ def run_batch(case: Dict[str, Any]) -> Dict[str, Any]:
         for t in threads:
             t.join(timeout=3)
         sys.setswitchinterval(old_switch)
+        shutil.rmtree(jobdir, ignore_errors=True)
     return out
 
 
@@ -249,6 +283,7 @@ def check_case(case: Dict[str, Any], col: Collector) -> None:
         labs.append("fail_kind:" + case.get("fail_kind", "divide"))
         labs.append("fail_at:%s" % ("first" if case["fail_at"] == 0 else "last" if case["fail_at"] == n - 1 else "middle"))
     for j in case["jobs"]:
+        labs.append("form:" + j.get("form", "list"))
         labs.append("payload:" + j["kind"] + (":empty" if j["kind"] == "collection" and not j["payload"]["v"] else ""))
     labs = sorted(set(labs))
     if not all(r["done"]) and not r["quiescent"]:
@@ -263,6 +298,10 @@ def check_case(case: Dict[str, Any], col: Collector) -> None:
         job = case["jobs"][k]
         feats = {"payload": job["kind"] + (":empty" if job["kind"] == "collection" and not job["payload"]["v"] else ""),
                  "job_fails": not exp["ok"]}
+        if job.get("form", "list") != "list":
+            feats["form"] = job["form"]
+        if exp.get("exc") == "unloadable":
+            feats["unloadable"] = case.get("fail_kind")
         jid = r["job_ids"][pos]
         if res["state"] == "pending":
             col.add("future_never_completes", feats, case, {"job": k, "quiescent_after_s": round(r["waited"], 1)},
@@ -324,7 +363,7 @@ def valid(case: Any) -> bool:
     try:
         n = len(case["jobs"])
         return n >= 1 and (case["fail_at"] is None or 0 <= case["fail_at"] < n) and 1 <= case["workers"] <= 4 and \
-            all(j["kind"] in ("float", "collection", "none") and j["payload"]["t"] in ("None", "FloatDataType", "FloatDataCollection") and
+            all(j["kind"] in ("float", "collection", "none") and j.get("form", "list") in ("list", "yaml", "pipeline") and j["payload"]["t"] in ("None", "FloatDataType", "FloatDataCollection") and
                 (j["kind"] == "float") == (j["payload"]["t"] == "FloatDataType") and (j["kind"] == "none") == (j["payload"]["t"] == "None")
                 for j in case["jobs"]) and case["switch"] in (1e-6, 1e-5, 1e-4, 5e-3)
     except Exception:
@@ -354,4 +393,4 @@ def shrink_candidates(case):
 
 
 def label_requirements(tier: str) -> Dict[str, Any]:
-    return {"failing_job": 0.2, "enqueue_stalled": 3, "fail_kind:value_empty": 1, "workers:1": 1, "workers:4": 1, "payload:collection:empty": 2, "payload:none": 3}
+    return {"failing_job": 0.2, "enqueue_stalled": 3, "fail_kind:value_empty": 1, "fail_kind:yaml_missing": 1, "fail_kind:cfg_not_nodes": 1, "form:yaml": 5, "form:pipeline": 5, "workers:1": 1, "workers:4": 1, "payload:collection:empty": 2, "payload:none": 3}
